@@ -66,7 +66,12 @@ func (x *Exec) libCall(st *State, fn *ssa.Function, args []Value, pos token.Pos,
 		k(st, []Value{Mk("err_mk", T(0))})
 		return
 	case "strings.Join":
-		k(st, []Value{x.joinModel(args[0], T(1))})
+		r := x.joinModel(args[0], T(1))
+		if x.rootMentions("strings_Join") {
+			// the contract of the function under verification talks about its Join calls: log them
+			x.recordEvent(st, "strings_Join", args, []Value{r})
+		}
+		k(st, []Value{r})
 		return
 	case "strings.ReplaceAll":
 		k(st, []Value{replaceAll(T(0), T(1), T(2))})
@@ -288,7 +293,9 @@ func (x *Exec) joinModel(sv Value, sep *Term) *Term {
 		return Concat(parts...)
 	}
 	s := x.mustTerm(sv, "join")
-	return App("join", "String", slArr(s), slLen(s), sep)
+	// the two base cases are exact; longer slices are the uninterpreted join
+	return Ite(Cmp("<=", slLen(s), IntT(0)), StrT(""),
+		Ite(Eq(slLen(s), IntT(1)), Select(slArr(s), IntT(0), "String"), App("join", "String", slArr(s), slLen(s), sep)))
 }
 
 func (x *Exec) slicesDelete(st *State, s, i, j *Term, pos token.Pos) *Term {
@@ -493,4 +500,30 @@ func (x *Exec) sprintf(st *State, args []Value, pos token.Pos) *Term {
 	}
 	flush()
 	return Concat(parts...)
+}
+
+// rootMentions: does the contract of the function under verification mention this name?
+func (x *Exec) rootMentions(name string) bool {
+	fc := x.rootFC
+	if fc == nil {
+		return false
+	}
+	if x.rootNames == nil {
+		x.rootNames = map[string]bool{}
+		add := func(cs []*Clause) {
+			for _, c := range cs {
+				for _, n := range []string{"strings_Join"} {
+					if strings.Contains(c.Text, n) {
+						x.rootNames[n] = true
+					}
+				}
+			}
+		}
+		add(fc.Requires)
+		add(fc.Ensures)
+		for _, cs := range fc.Loops {
+			add(cs)
+		}
+	}
+	return x.rootNames[name]
 }
